@@ -266,6 +266,33 @@ fn gen_x(rng: &mut Rng, idx: usize, n: usize, thorough: bool) -> String {
         nops = nops.min(12);
     }
     let mut s = format!("X {} {} ;", compress as u8, vt_text(&vt));
+    // CNF-shaped family (a third of the cases with >= 3 leaves): clauses as disjunctions of literals,
+    // conjoined pairwise, the result sometimes negated -- CNF compilations are full of decision
+    // nodes of one shape that differ in a single literal or pointer
+    if nleaves >= 3 && rng.chance(1, 3) {
+        let mut len = 0usize;
+        let mut clause_ids = vec![];
+        for _ in 0..rng.range(2, if compress { 7 } else { 4 }) {
+            let w = rng.range(1, 3);
+            let mut last = None;
+            for _ in 0..w {
+                s.push_str(&format!(" v {} {}", rng.pick(&labels), rng.coin() as u8));
+                len += 1;
+                last = Some(match last { None => len - 1, Some(p) => { s.push_str(&format!(" o {p} {}", len - 1)); len += 1; len - 1 } });
+            }
+            clause_ids.push(last.unwrap());
+        }
+        let mut acc = clause_ids[0];
+        for c in &clause_ids[1..] {
+            s.push_str(&format!(" a {acc} {c}"));
+            len += 1;
+            acc = len - 1;
+        }
+        if rng.coin() {
+            s.push_str(&format!(" n {acc}"));
+        }
+        return s;
+    }
     let mut len = 0usize;
     let lit = |rng: &mut Rng| format!(" v {} {}", rng.pick(&labels), rng.coin() as u8);
     let seed = if rng.chance(1, 8) { 1 } else { nleaves.max(2) };
